@@ -959,7 +959,7 @@ Section Roll.
   Let n := length (c_shape x).
 
   Definition roll_step (nc : idx) (p : Z * Z) : idx :=
-    let '(s, a) := p in zset nc a ((zget nc a 0 + s) mod zget sh a 0).
+    let '(s, a) := p in zset nc a (s_roll_step (zget nc a 0) s (zget sh a 0)).
 
   Lemma roll_idx_fold pairs c : roll_idx sh pairs c = fold_left roll_step pairs c.
   Proof. reflexivity. Qed.
@@ -970,6 +970,7 @@ Section Roll.
   Proof.
     revert acc. induction pairs as [|[s a] ps IH]; intros acc Hr; simpl; [reflexivity|].
     assert (Ha : 0 <= a < Z.of_nat (length acc)) by (apply (Hr (s, a)); left; reflexivity).
+    unfold s_roll_step.
     assert (Hl : length (zset acc a ((zget acc a 0 + s) mod zget sh a 0)) = length acc).
     { rewrite <- (Z2Nat.id a) at 1 by lia. apply zset_length. }
     rewrite IH; [assumption|]. intros p Hp. rewrite Hl. apply Hr. right. assumption.
@@ -983,6 +984,7 @@ Section Roll.
   Proof.
     revert acc. induction pairs as [|[s a] ps IH]; intros acc Hr Hk; simpl; [reflexivity|].
     assert (Ha : 0 <= a < Z.of_nat (length acc)) by (apply (Hr (s, a)); left; reflexivity).
+    unfold s_roll_step.
     assert (Hl : length (zset acc a ((zget acc a 0 + s) mod zget sh a 0)) = length acc).
     { rewrite <- (Z2Nat.id a) at 1 by lia. apply zset_length. }
     rewrite IH; [|intros p Hp; rewrite Hl; apply Hr; right; assumption|rewrite Hl; assumption].
